@@ -33,17 +33,18 @@ theorem decodeFixed_fixedBytes (fx : Fixed) (rest : List UInt8) (h : fixedOk fx)
   have s1 : slice (fixedBytes ⟨bo, typ, flags, bodyLen, serial⟩ ++ rest) 4 4 = bytesOf bo 4 bodyLen := by
     have := slice_mid [if bo = .le then 108 else 66, UInt8.ofNat typ, UInt8.ofNat flags, 1]
       (bytesOf bo 4 bodyLen) (bytesOf bo 4 serial ++ rest) 4 4 rfl (by simp)
-    simpa [fixedBytes] using this
+    rw [← this]; simp [fixedBytes]
   have s2 : slice (fixedBytes ⟨bo, typ, flags, bodyLen, serial⟩ ++ rest) 8 4 = bytesOf bo 4 serial := by
     have := slice_mid ([if bo = .le then 108 else 66, UInt8.ofNat typ, UInt8.ofNat flags, 1] ++
       bytesOf bo 4 bodyLen) (bytesOf bo 4 serial) rest 8 4 (by simp) (by simp)
-    simpa [fixedBytes] using this
+    rw [← this]; simp [fixedBytes]
   unfold decodeFixed
-  rw [if_neg (by simp [fixedBytes])]
-  rw [s1, s2, valOf_bytesOf _ _ _ h4, valOf_bytesOf _ _ _ h6]
-  have t1 : (UInt8.ofNat typ).toNat = typ := by simp [UInt8.toNat_ofNat']; omega
+  rw [if_neg (by simp [fixedBytes]; omega)]
+  rw [s1, s2]
+  have h2' : typ < 256 := Nat.lt_of_le_of_lt h2 (by decide)
+  have t1 : (UInt8.ofNat typ).toNat = typ := by simp [UInt8.toNat_ofNat']; exact h2'
   have t2 : (UInt8.ofNat flags).toNat = flags := by simp [UInt8.toNat_ofNat']; omega
-  cases bo <;> simp [fixedBytes, t1, t2, h1, h2] <;> omega
+  cases bo <;> simp [fixedBytes, t1, t2, h1, h2, valOf_bytesOf _ _ _ h4, valOf_bytesOf _ _ _ h6] <;> omega
 
 theorem decodeFixed_sound (buf : List UInt8) (fx : Fixed) (h : decodeFixed buf = some fx) :
     12 ≤ buf.length ∧ fixedOk fx ∧ slice buf 0 12 = fixedBytes fx := by
@@ -59,9 +60,16 @@ theorem decodeFixed_sound (buf : List UInt8) (fx : Fixed) (h : decodeFixed buf =
       rw [this, slice_add, slice_add]
     split at h
     · rename_i e t f ver rest
-      split at h
-      · simp at h
-      · rename_i bo hbo
+      cases hbo : (if e = 108 then some ByteOrder.le else if e = 66 then some ByteOrder.be else none) with
+      | none => simp [hbo] at h
+      | some bo =>
+        have he : (if bo = ByteOrder.le then (108 : UInt8) else 66) = e := by
+          split at hbo
+          · simp only [Option.some.injEq] at hbo; subst hbo; simp [*]
+          · split at hbo
+            · simp only [Option.some.injEq] at hbo; subst hbo; simp [*]
+            · simp at hbo
+        simp only [hbo] at h
         split at h
         · rename_i ht
           split at h
@@ -71,7 +79,7 @@ theorem decodeFixed_sound (buf : List UInt8) (fx : Fixed) (h : decodeFixed buf =
             · rename_i hser
               simp only [Option.some.injEq] at h
               subst h
-              refine ⟨by omega, ⟨ht.1, ht.2, f.toNat_lt, ?_, by omega, ?_⟩, ?_⟩
+              refine ⟨by omega, ⟨ht.1, ht.2, f.toNat_lt, ?_, Nat.pos_of_ne_zero hser, ?_⟩, ?_⟩
               · have := valOf_lt bo (slice (e :: t :: f :: ver :: rest) 4 4); rwa [hl4] at this
               · have := valOf_lt bo (slice (e :: t :: f :: ver :: rest) 8 4); rwa [hl8] at this
               · rw [key]
@@ -82,12 +90,6 @@ theorem decodeFixed_sound (buf : List UInt8) (fx : Fixed) (h : decodeFixed buf =
                 rw [b4, b8]
                 congr 1
                 subst hver
-                have he : (if bo = ByteOrder.le then (108 : UInt8) else 66) = e := by
-                  split at hbo
-                  · simp only [Option.some.injEq] at hbo; subst hbo; simp [*]
-                  · split at hbo
-                    · simp only [Option.some.injEq] at hbo; subst hbo; simp [*]
-                    · simp at hbo
                 simp [slice, he]
           · simp at h
         · simp at h
@@ -102,11 +104,82 @@ theorem decodeFixed_iff (buf : List UInt8) (fx : Fixed) :
     rw [buf_eq_of_slice buf 12 _ hs]
     exact decodeFixed_fixedBytes fx _ hok
 
+/-! ### the whole header -/
+
+theorem decodeHeader_sound (buf : List UInt8) (fx : Fixed) (fs : List Field) (used : Nat)
+    (h : decodeHeader buf = some (fx, fs, used)) :
+    ∃ len, decodeFixed buf = some fx ∧ readNum fx.bo buf 12 buf.length 4 = some len ∧
+      16 + len ≤ buf.length ∧ decodeFields fx.bo buf 16 (16 + len) len = some fs ∧
+      fieldsOk fx.typ fs = true ∧ used = 16 + len := by
+  unfold decodeHeader at h
+  split at h
+  · simp at h
+  · rename_i fx' hfx
+    split at h
+    · simp at h
+    · rename_i len hn
+      split at h
+      · rename_i hle
+        split at h
+        · simp at h
+        · rename_i fs' hfs
+          split at h
+          · rename_i hok
+            simp only [Option.some.injEq, Prod.mk.injEq] at h
+            obtain ⟨rfl, rfl, rfl⟩ := h
+            exact ⟨len, hfx, hn, hle, hfs, hok, rfl⟩
+          · simp at h
+      · simp at h
+
 /-- Header decoding succeeds exactly on spec-valid headers and returns what the bytes say
     (for field arrays within the 64 MiB array limit, which the receive loop enforces beforehand). -/
 theorem decodeHeader_iff (buf : List UInt8) (fx : Fixed) (fs : List Field) (used : Nat) :
     (decodeHeader buf = some (fx, fs, used) ∧ used - 16 ≤ maxArrayLen) ↔ ValidHeader buf fx fs used := by
-  sorry
+  constructor
+  · rintro ⟨h, hmax⟩
+    obtain ⟨len, hfx, hn, hle, hfs, hok, rfl⟩ := decodeHeader_sound buf fx fs used h
+    obtain ⟨_, hfok, hfb⟩ := decodeFixed_sound buf fx hfx
+    obtain ⟨_, _, hlt, hby⟩ := readNum_sound _ _ _ _ _ _ hn
+    obtain ⟨es, hes, hef, _⟩ := fields_sound fx.bo buf (16 + len) len 16 fs hfs
+    refine ⟨hfok, by omega, hle, hfb, es, ?_, hef, hok⟩
+    rw [enc_fieldArray]
+    have e1 : 16 + len - 16 = len := by omega
+    rw [e1] at hes
+    have hl : (slice buf 16 len).length = len := slice_length _ _ _ (by omega)
+    refine ⟨_, hes, by rw [hl]; omega, ?_⟩
+    have e2 : 16 + len - 12 = 4 + len := by omega
+    rw [hl, e2, slice_add, hby]
+  · rintro ⟨hfok, h16, hub, hfb, es, henc, hef, hok⟩
+    obtain ⟨body, hbody, hmax, harr⟩ := (enc_fieldArray _ _ _).1 henc
+    have hlen : used - 12 = 4 + body.length := by
+      have := congrArg List.length harr
+      rw [slice_length _ _ _ (by omega)] at this
+      simpa using this
+    have e2 : used - 12 = 4 + body.length := hlen
+    rw [e2, slice_add] at harr
+    obtain ⟨h4, hb⟩ := List.append_inj harr (by rw [slice_length _ _ _ (by omega)]; simp)
+    have hfx : decodeFixed buf = some fx := (decodeFixed_iff buf fx).2 ⟨by omega, hfok, hfb⟩
+    have hlt : body.length < 256 ^ 4 := Nat.lt_of_le_of_lt hmax maxArrayLen_lt
+    have hused : used = 16 + body.length := by omega
+    refine ⟨?_, by omega⟩
+    unfold decodeHeader
+    rw [hfx]
+    simp only []
+    have hn : readNum fx.bo buf 12 buf.length 4 = some body.length := by
+      unfold readNum
+      rw [if_pos ⟨by omega, Nat.le_refl _⟩, h4, valOf_bytesOf _ _ _ hlt]
+    rw [hn]
+    simp only []
+    rw [if_pos (by omega)]
+    obtain ⟨hdecomp, hpl⟩ := buf_decomp buf 16 body.length (by omega)
+    have hfc := fields_complete fx.bo es fs (buf.take 16) body (buf.drop (16 + body.length)) body.length
+      (by rw [hpl]; exact hbody) hef (Nat.le_refl _)
+    have e3 : (12 : Nat) + 4 = 16 := rfl
+    rw [e3] at hb
+    rw [hb] at hdecomp
+    rw [← hdecomp, hpl] at hfc
+    rw [hfc]
+    simp [hok, hused]
 
 /-- The marshaller emits the fixed part, then exactly the `a(yv)` encoding of the message's entries,
     then zero padding to 8; and it refuses exactly the Invalid type, invalid names / body signature and
@@ -128,16 +201,78 @@ theorem marshal_decode (m : Msg) (serial : Nat) (hr : msgInRange m serial) (hs :
     decodeMessage (out ++ m.body) = some (⟨m.bo, m.typ, m.flags, m.body.length, serial⟩, fs, m.body) := by
   sorry
 
+theorem decodeMessage_sound (buf : List UInt8) (fx : Fixed) (fs : List Field) (body : List UInt8)
+    (h : decodeMessage buf = some (fx, fs, body)) :
+    ∃ used o, decodeHeader buf = some (fx, fs, used) ∧ skipPad buf used buf.length 8 = some o ∧
+      (fx.bodyLen ≠ 0 → buf.length - o = fx.bodyLen) := by
+  unfold decodeMessage at h
+  split at h
+  · simp at h
+  · rename_i fx' fs' used hh
+    split at h
+    · simp at h
+    · rename_i o hp
+      split at h
+      · rename_i hz
+        simp only [Option.some.injEq, Prod.mk.injEq] at h
+        obtain ⟨rfl, rfl, rfl⟩ := h
+        exact ⟨used, o, hh, hp, fun hne => absurd hz hne⟩
+      · split at h
+        · rename_i hbl
+          simp only [Option.some.injEq, Prod.mk.injEq] at h
+          obtain ⟨rfl, rfl, rfl⟩ := h
+          exact ⟨used, o, hh, hp, fun _ => hbl⟩
+        · simp at h
+
 /-- The frame length announced to the receive loop is header + padding + body. -/
 theorem bytesNeeded_frame (buf : List UInt8) (fx : Fixed) (fs : List Field) (body : List UInt8)
     (h : decodeMessage buf = some (fx, fs, body)) (hb : fx.bodyLen ≠ 0)
     (hlim : buf.length ≤ maxMessageLen) (hfl : valOf fx.bo (slice buf 12 4) ≤ maxArrayLen) :
     bytesNeeded buf = .bytes buf.length ∧ ∀ k, 16 ≤ k → bytesNeeded (buf.take k) = .bytes buf.length := by
-  sorry
+  obtain ⟨used, o, hh, hp, hbl⟩ := decodeMessage_sound buf fx fs body h
+  obtain ⟨len, hfx, hn, hle, _, _, rfl⟩ := decodeHeader_sound buf fx fs used hh
+  obtain ⟨rfl, _, _, _⟩ := skipPad_sound _ _ _ _ _ hp
+  have hbl := hbl hb
+  have hlen : valOf fx.bo (slice buf 12 4) = len := by
+    unfold readNum at hn
+    split at hn
+    · simpa using hn
+    · simp at hn
+  have key : ∀ b : List UInt8, 16 ≤ b.length → decodeFixed b = some fx → slice b 12 4 = slice buf 12 4 →
+      bytesNeeded b = .bytes buf.length := by
+    intro b hb16 hbfx hbs
+    unfold bytesNeeded
+    rw [if_neg (by omega), hbfx]
+    simp only []
+    rw [hbs, hlen]
+    have e1 : 12 + len + 4 = 16 + len := by omega
+    rw [e1, if_neg (by rw [hlen] at hfl; omega)]
+    congr 1; omega
+  refine ⟨key buf (by omega) hfx rfl, ?_⟩
+  intro k hk
+  obtain ⟨h12, hok, hs⟩ := (decodeFixed_iff buf fx).1 hfx
+  apply key
+  · simp only [List.length_take]; omega
+  · rw [decodeFixed_iff]
+    refine ⟨by simp only [List.length_take]; omega, hok, ?_⟩
+    rw [slice_take _ _ _ _ (by omega)]; exact hs
+  · exact slice_take _ _ _ _ (by omega)
 
 /-- the limits are checked on the announced lengths alone -/
 theorem bytesNeeded_limits (buf : List UInt8) (n : Nat) (h : bytesNeeded buf = .bytes n) :
     n ≤ maxMessageLen ∨ (buf.length < 16 ∧ n = 16) := by
-  sorry
+  unfold bytesNeeded at h
+  split at h
+  · rename_i hl
+    simp only [Needed.bytes.injEq] at h
+    exact Or.inr ⟨hl, h.symm⟩
+  · split at h
+    · simp at h
+    · simp only [] at h
+      split at h
+      · simp at h
+      · rename_i hc
+        simp only [Needed.bytes.injEq] at h
+        left; omega
 
 end Rustbus.Header
